@@ -41,7 +41,7 @@ def tables(ops, results):
             ctab.append('(%s, %s)' % (ct.cstr(op['key']), ct.clist([ct.cstr(x) for x in res])))
     return ct.clist(rt), ct.clist(ctab)
 
-def run(pairs, wd, tag='corr', loader='cli', fuel=FUEL, public=False, expr=None):
+def run(pairs, wd, tag='corr', loader='cli', fuel=FUEL, public=False, expr=None, header=None):
     """pairs: list of dict(rules=..., data=...). Returns list of dict per pair:
        kind: 'parse_rejected'|'empty'|'doc_rejected'|'compared'|'untranslatable'
        verdict (for compared), impl (raw impl result summary)"""
@@ -111,7 +111,7 @@ def run(pairs, wd, tag='corr', loader='cli', fuel=FUEL, public=False, expr=None)
                    (result[0] + ' ' + (result[1] if isinstance(result[1], str) else '')))
         out[i] = {'kind': 'compared', 'impl': summary, 'result': result, 'ast': ast, 'doc': doc,
                   'public': {k: raw.get(k) for k in ('rc_verbose', 'rc_plain')} if isinstance(raw, dict) else None}
-    verdicts, errors = model.eval_cases(cases, wd, tag)
+    verdicts, errors = model.eval_cases(cases, wd, tag, **({'header': header} if header else {}))
     for i, _, _ in cases:
         out[i]['verdict'] = verdicts.get(i, 'NoModelOutput')
     return out, errors
